@@ -302,7 +302,7 @@ def CallSpec (relaxed : Bool) (st : St) (buf m : Bytes) : Outcome → Prop
     if c'.st.stage = .done then
       ∃ c'', parseU relaxed st (buf ++ m) = .ret false c'' ∧ c''.st.stage = .done ∧ c''.out = c'.out
     else obsOf [] (parseU relaxed st (buf ++ m)) = obsOf c'.out (parseU relaxed c'.st (c'.buf ++ m)) ∨
-         ∃ o, parseU relaxed st (buf ++ m) = .threw .extCrlf o
+         (ChunkedSets.extCommit = true ∧ ∃ o, parseU relaxed st (buf ++ m) = .threw .extCrlf o)
 
 theorem obsOf_z (o : Bytes) (x : Outcome) : obsOf o (x.fr [] true) = obsOf o x := by
   rw [obsOf_fr]; simp
@@ -430,7 +430,7 @@ theorem feed_ext (relaxed : Bool) (capOf : Nat → Nat) (hpos : ∀ i, 0 < capOf
     (hv : r.verdict = .more) (hst : r.st.stage ≠ .done) (a m : Bytes) :
     ((feed relaxed capOf r a).verdict = .more →
         (feed relaxed capOf (feed relaxed capOf r a) m).obs = (feed relaxed capOf r (a ++ m)).obs ∨
-        (feed relaxed capOf r (a ++ m)).verdict = .reject .extCrlf) ∧
+        (ChunkedSets.extCommit = true ∧ (feed relaxed capOf r (a ++ m)).verdict = .reject .extCrlf)) ∧
     ((feed relaxed capOf r a).verdict ≠ .more → Agree (feed relaxed capOf r a) (feed relaxed capOf r (a ++ m))) := by
   have h1 := feed_obs relaxed capOf hpos r hv a
   have hO := feed_obs relaxed capOf hpos r hv (a ++ m)
@@ -473,7 +473,7 @@ theorem feed_ext (relaxed : Bool) (capOf : Nat → Nat) (hpos : ∀ i, 0 < capOf
         exact ⟨b4, by rw [b3, a3, e3]⟩
       · simp only [hd, if_false] at hx a4
         refine ⟨fun _ => ?_, fun hm => absurd a4 hm⟩
-        rcases hx with heq | ⟨o, hbad⟩
+        rcases hx with heq | ⟨hq, o, hbad⟩
         · left
           have h2 := feed_obs relaxed capOf hpos r1 a4 m
           rw [h2, hO, a1, a2, a3]
@@ -483,7 +483,7 @@ theorem feed_ext (relaxed : Bool) (capOf : Nat → Nat) (hpos : ∀ i, 0 < capOf
           rw [e1, e2, heq]
         · right
           rw [hbad] at hO
-          exact (obs_threw hO).2
+          exact ⟨hq, (obs_threw hO).2⟩
 
 theorem feed_more_stage (relaxed : Bool) (capOf : Nat → Nat) (hpos : ∀ i, 0 < capOf i) (r : Run)
     (hv : r.verdict = .more) (a : Bytes) (hm : (feed relaxed capOf r a).verdict = .more) :
@@ -513,7 +513,7 @@ run fails with "cannot skip CRLF after [chunk-ext]". -/
 theorem foldl_feed_flatten (relaxed : Bool) (capOf : Nat → Nat) (hpos : ∀ i, 0 < capOf i) :
     ∀ (segs : List Bytes) (a : Bytes) (r : Run), r.verdict = .more → r.st.stage ≠ .done →
       Agree (segs.foldl (feed relaxed capOf) (feed relaxed capOf r a)) (feed relaxed capOf r (a ++ segs.flatten)) ∨
-      (feed relaxed capOf r (a ++ segs.flatten)).verdict = .reject .extCrlf := by
+      (ChunkedSets.extCommit = true ∧ (feed relaxed capOf r (a ++ segs.flatten)).verdict = .reject .extCrlf) := by
   intro segs
   induction segs with
   | nil => intro a r _ _; left; simp only [List.foldl_nil, List.flatten_nil, List.append_nil]; exact Agree.refl _
@@ -532,7 +532,7 @@ theorem foldl_feed_flatten (relaxed : Bool) (capOf : Nat → Nat) (hpos : ∀ i,
           have : (feed relaxed capOf (feed relaxed capOf r a) (b ++ rest.flatten)).verdict =
               (feed relaxed capOf r (a ++ (b ++ rest.flatten))).verdict := by
             simp only [Run.obs, Obs.mk.injEq] at heq; exact heq.2.2
-          rw [← this]; exact hQ
+          exact ⟨hQ.1, by rw [← this]; exact hQ.2⟩
         · exact Or.inr hq
     · left
       rw [feed_of_ne relaxed capOf _ hm b, foldl_feed_of_ne relaxed capOf _ hm rest]
@@ -543,7 +543,7 @@ theorem feed_init_nil (relaxed : Bool) (capOf : Nat → Nat) : (feed relaxed cap
 
 theorem feedAll_oneShot (relaxed : Bool) (capOf : Nat → Nat) (hpos : ∀ i, 0 < capOf i) (segs : List Bytes) :
     Agree (feedAll relaxed capOf segs) (feedAll relaxed capOf [segs.flatten]) ∨
-    (feedAll relaxed capOf [segs.flatten]).verdict = .reject .extCrlf := by
+    (ChunkedSets.extCommit = true ∧ (feedAll relaxed capOf [segs.flatten]).verdict = .reject .extCrlf) := by
   unfold feedAll
   cases segs with
   | nil =>
